@@ -422,6 +422,10 @@ func (r *Runner) Exec(i int, o Op) {
 			r.gcIndex(o)
 		case "reopen":
 			r.reopen(o)
+		case "rebits":
+			r.rebits(o)
+		case "mismatch":
+			r.mismatch(o)
 		}
 	})
 	if p != nil {
@@ -884,4 +888,65 @@ func (r *Runner) ObserveFlags(ops []Op) {
 			break
 		}
 	}
+}
+
+
+// rebits closes the store and reopens it with another index bit size.
+func (r *Runner) rebits(o Op) {
+	if err := r.S.Close(); err != nil {
+		r.viol("close-error", "close-error", nil, "Close failed: %v", err)
+	}
+	r.S = nil
+	if r.Opt.AfterClose != nil {
+		r.Opt.AfterClose(r)
+	}
+	old := r.Env.Cfg.Bits
+	r.Env.Cfg.Bits = uint8(o.A)
+	r.Res.Add("rebucket_reopens", 1)
+	r.Res.Add(fmt.Sprintf("rebucket_%d_to_%d", old, o.A), 1)
+	if !r.Open() {
+		return
+	}
+	r.Res.Flag("rebucketed")
+	r.Probe("after-rebucket")
+	r.iterate()
+}
+
+// mismatch closes the store, tries to open it with another index (A=0) or
+// primary (A=1) file size limit, which must be refused with the specific
+// error, and reopens it with the original settings.
+func (r *Runner) mismatch(o Op) {
+	if err := r.S.Close(); err != nil {
+		r.viol("close-error", "close-error", nil, "Close failed: %v", err)
+	}
+	r.S = nil
+	cfg := r.Env.Cfg
+	var want string
+	if o.A == 0 {
+		cfg.IndexFileSize = cfg.IndexFileSize/2 + 7
+		want = "index"
+	} else {
+		cfg.PrimaryFileSize = cfg.PrimaryFileSize/2 + 7
+		want = "primary"
+	}
+	s, err := r.Env.OpenCfg(cfg, r.Opt.Extra...)
+	r.Res.Add("mismatch_opens_"+want, 1)
+	if err == nil {
+		s.Close()
+		r.viol("mismatch-accepted", "mismatch-accepted-"+want, nil, "OpenStore with a different %s file size limit succeeded", want)
+	} else {
+		var ie types.ErrIndexWrongFileSize
+		var pe types.ErrPrimaryWrongFileSize
+		if want == "index" && !errors.As(err, &ie) {
+			r.viol("mismatch-error-type", "mismatch-error-type-index", nil, "OpenStore with a different index file size failed with %T %v, want ErrIndexWrongFileSize", err, err)
+		}
+		if want == "primary" && !errors.As(err, &pe) {
+			r.viol("mismatch-error-type", "mismatch-error-type-primary", nil, "OpenStore with a different primary file size failed with %T %v, want ErrPrimaryWrongFileSize", err, err)
+		}
+	}
+	if !r.Open() {
+		return
+	}
+	r.Res.Flag("mismatch-refused")
+	r.Probe("after-mismatch")
 }
